@@ -53,7 +53,7 @@ def floors(m, tier):
             "strace attached": (c.get("strace_attached", 0), 3),
             "recoveries judged": (c.get("recoveries", 0), 80 if q else 1800),
             "fresh-interpreter recoveries": (c.get("fresh_recoveries", 0), 2),
-            "corruption cases": (c.get("corruptions", 0), 20 if q else 300),
+            "corruption cases": (c.get("corruptions", 0), 20 if q else 100),
             "scenarios": (c.get("scenarios", 0), 6)}
 
 
